@@ -20,7 +20,8 @@ THEOREMS = [
 RULE = ("cases = deterministic configuration of a rule (STV / IRV / SequentialRCV with fractional or full transfer, "
         "Plurality, SNTV, Borda, TopTwo, Alaska, DominatingSets, CondoBorda, the six score rules) x tiebreak in {None, "
         "random, borda, first_place} x tie-prone profile (unit / small integer weights; 50% generic) engineered to have "
-        "ties at the seat boundary, at the elimination end, or none; each case is constructed under three different "
+        "ties at the seat boundary, at the elimination end, or none; plus engineered boundary ties of 3-5 candidates that "
+        "the scored tiebreak resolves only partly (top separated / two still-tied groups); each case is constructed under three different "
         "seeds of random and numpy.random; non-trivial = at least one ballot; distinct = distinct (rule, configuration, "
         "profile)")
 TRUSTED = ["modelled, not verified: the laws of random.sample (only *whether* and *on which set* it is called is checked "
@@ -48,6 +49,11 @@ def cases(rng, tier, shard, nshards, phase):
         if rng.random() < 0.04:
             yield float_collapse_case(rng)
             continue
+        if rng.random() < 0.05:
+            c = c01.double_residual_tie_case(rng) if rng.random() < 0.6 else c01.partial_tiebreak_case(rng)
+            if c is not None:
+                yield c
+                continue
         rule = rng.choice(RULES)
         case = c01.gen_case(rng, rule)
         case["cfg"].pop("transfer", None)
